@@ -70,7 +70,7 @@ package proxy
 //@   requires cfg.ClientIPHeader == "" || !managedKey(canonKey(cfg.ClientIPHeader)) || cfg.ClientIPHeader == "X-Forwarded-For" || cfg.ClientIPHeader == "X-Real-Ip"
 //@   requires cfg.TLSHeader == "" || (!managedKey(canonKey(cfg.TLSHeader)) && canonKey(cfg.TLSHeader) != canonKey(cfg.ClientIPHeader))
 //@   requires len(digit16) == 16 && string(digit16) == "0123456789abcdef"
-//@   assigns mapsOf(map[string][]string), elems(string), hdr1, hdrHas
+//@   assigns mapsOf(map[string][]string), hdr1, hdrHas
 //@   ensures nopanic
 //@   ensures (result == nil) == (splitErr(r.RemoteAddr) == nil)
 //@   // C07: the request's headers are changed only under the managed names and the two configured names
@@ -98,7 +98,7 @@ package proxy
 //@ func addResponseHeaders
 //@   props C08
 //@   requires w != nil && r != nil
-//@   assigns mapsOf(map[string][]string), elems(string), hdr1, hdrHas
+//@   assigns mapsOf(map[string][]string), hdr1, hdrHas
 //@   ensures nopanic
 //@   ensures result == nil
 //@   // Strict-Transport-Security is only ever added on TLS connections
